@@ -42,7 +42,7 @@ def gen(rng, tier):
         lines.append("CRASH %s %s big" % (cid, ds.did))
         cases.append((cid, ds, "big"))
         lines.append("DROP " + ds.did)
-    for i in range(6 if tier == "quick" else 40):
+    for i in range(6 if tier == "quick" else 300):
         ds = dp.small_dataset(rng, "s%d" % i, hostile=True)
         if any(0 in c for r in ds.rows for c in r):
             continue
